@@ -6,11 +6,13 @@
 pub struct Bytes<'a> {
     data: &'a [u8],
     pos: usize,
+    /// bytes taken from the end (see `tail_u8`)
+    tail: usize,
 }
 
 impl<'a> Bytes<'a> {
     pub fn new(data: &'a [u8]) -> Self {
-        Bytes { data, pos: 0 }
+        Bytes { data, pos: 0, tail: 0 }
     }
     pub fn u8(&mut self) -> u8 {
         let b = self.data.get(self.pos).copied().unwrap_or(0);
@@ -53,6 +55,18 @@ impl<'a> Bytes<'a> {
     }
     pub fn pick<T: Clone>(&mut self, xs: &[T]) -> T {
         xs[self.choice(xs.len())].clone()
+    }
+    /// Reads backwards from the END of the input (0 once it would meet the forward cursor). Fields added to a
+    /// decoder later are drawn from here, so that the layout of everything decoded from the front - and with it
+    /// every committed replay - stays what it was.
+    pub fn tail_u8(&mut self) -> u8 {
+        let n = self.data.len();
+        let b = if self.tail < n && n - 1 - self.tail >= self.pos { self.data[n - 1 - self.tail] } else { 0 };
+        self.tail += 1;
+        b
+    }
+    pub fn tail_choice(&mut self, n: usize) -> usize {
+        (self.tail_u8() as usize * n) >> 8
     }
     pub fn exhausted(&self) -> bool {
         self.pos >= self.data.len()
